@@ -19,8 +19,69 @@ def key(fn, what):
     return "%s:%s" % (fn.name, what)
 
 
+def api_passthrough_rule(ctx, P):
+    """the decoder's result functions hand out what the search computes in the same call"""
+    r = ctx.rule("PROV.S8-no-stale-result", "decoder_hyp, decoder_seg_iter and decoder_prob return NULL / an error value or what the search's slot returned in this very call, and the score out-parameter is written by that slot call: a hypothesis or score remembered from an earlier call (for instance from before decoder_end_utt) is never handed out", floor=4)
+    for name, slot in (("decoder_hyp", "hyp"), ("decoder_seg_iter", "seg_iter"), ("decoder_prob", "prob")):
+        f = P.fn(name, "decoder.c")
+        ctx.touch(f)
+        calls = [c for c in f.calls() if (f.nodes[c].get("slot") or [None, None])[1] == slot]
+        if not calls:
+            ctx.bad(r, "%s:slot-call" % name, f.where(f.root), "%s no longer calls the search's `%s` function" % (name, slot))
+            continue
+        okall = True
+        for rt in f.find("Return"):
+            if not f.ch(rt):
+                continue
+            v = f.ch(rt)[0]
+            if paths._is_zero(f, v) or (f.constval(v) is not None):
+                continue
+            txt = f.canon(v, calls=True)
+            fresh = any(txt == f.canon(c, subst=False) or f.canon(c, subst=False) in txt for c in calls)
+            d = paths.local_of(f, v)
+            if not fresh and d is not None:
+                # a local whose every definition reaching the return is the slot call's result
+                defs = [dn for dn in paths.defs_of_local(f, d) if isinstance(dn, int)]
+                vals = []
+                for dn in defs:
+                    val = f.ch(dn)[1] if f.k(dn) == "Assign" else (f.ch(dn)[0] if f.k(dn) == "Var" and f.ch(dn) else None)
+                    vals.append(f.strip(val) if val is not None else None)
+                fresh = bool(vals) and all(x is not None and (x in calls or paths._is_zero(f, x)) for x in vals)
+            okall = okall and fresh
+            ctx.check(r, fresh, "%s:return@%d" % (name, sum(1 for r2 in f.find("Return") if r2 <= rt)), f.where(rt), "%s returns `%s`, which is not the result of the search's `%s` function in this call: a remembered result can be stale (the utterance may have ended, words may have been added)" % (name, f.src(v)[:50], slot))
+        # the score out-parameter goes to the slot call
+        if name in ("decoder_hyp", "decoder_prob") and len(f.params) > 1:
+            outp = f.params[1][0]
+            direct = any(outp in [f.canon(a, subst=False) for a in f.args(c)] for c in calls)
+            others = [s_ for s_ in paths.stores(f) if s_["path"] == "*%s" % outp]
+            ctx.check(r, direct and not others, "%s:score-out" % name, f.where(calls[0]), "%s does not pass its score out-parameter to the search's `%s` function (or writes it from elsewhere)" % (name, slot))
+
+
+def score_of_exit_rule(ctx, P):
+    """shared with C02: the score the search reports is the score of the entry it back-traces"""
+    fns = {f.name: f for f in P.functions(U) if f.file.endswith(U)}
+    # ---- S7 reported score belongs to the selected exit -------------------------------------------------
+    s7 = ctx.rule("PAIR.S7-score-of-exit", "in the exit search the best score and the selected entry are updated together under the same conditions, so the reported path score is the score of the entry the hypothesis and segments are traced from", floor=2)
+    fe = fns.get("fsg_search_find_exit")
+    if fe is None:
+        raise AnalysisIncomplete("anchor vanished: fsg_search_find_exit")
+    ctx.touch(fe)
+    bs = [s for s in paths.stores(fe) if s["path"] == "bestscore" and s["rhs"] is not None and not paths.is_const(fe, s["rhs"])]
+    bh = [s for s in paths.stores(fe) if s["path"] == "besthist" and s["rhs"] is not None and not paths.is_const(fe, s["rhs"], -1)]
+    for s in bs:
+        mates = [t for t in bh if paths.same_block(fe, t["node"], s["node"])]
+        ctx.check(s7, len(mates) == 1, key(fe, "score-with-entry"), fe.where(s["node"]), "best score is updated without selecting the entry it belongs to in the same branch: the reported score can come from an entry that is not the one back-traced (segment scores no longer add up to it)")
+    for t in bh:
+        mates = [s for s in bs if paths.same_block(fe, t["node"], s["node"])]
+        tie = paths.guarded(fe, t["node"], lambda fn, cc, pol: paths.rel(fn, cc, pol) in (("bestscore", "==", "hist_entry->score"), ("hist_entry->score", "==", "bestscore")))
+        ctx.check(s7, len(mates) == 1 or tie, key(fe, "entry-with-score:%s" % ("tie" if tie else "better")), fe.where(t["node"]), "an entry is selected without taking its score (and not under score == bestscore)")
+    outs = [s for s in paths.stores(fe) if s["path"] == "*out_score"]
+    ctx.check(s7, len(outs) == 1 and fe.canon(outs[0]["rhs"], subst=False) == "bestscore" and len(bs) >= 1, key(fe, "reported"), fe.where(fe.root), "the score reported is not the best score of the selection loop")
+
+
 def run(ctx):
     P = ctx.P
+    api_passthrough_rule(ctx, P)
     fns = {f.name: f for f in P.functions(U) if f.file.endswith(U)}
     for n in ("fsg_seg_bp2itor", "fsg_search_hyp", "fsg_search_seg_iter", "fsg_seg_next"):
         if n not in fns:
@@ -165,23 +226,7 @@ def run(ctx):
         ss = [s for s in paths.field_stores(av, "acmod_s", fld) if s["op"] == op]
         ctx.check(s4, len(ss) == 1 and paths.entry_must_pass(av, lambda e: e == ss[0]["node"]), key(av, fld), av.where(av.root), "acmod_advance does not apply `%s%s` exactly once on every path" % (op, fld))
 
-    # ---- S7 reported score belongs to the selected exit -------------------------------------------------
-    s7 = ctx.rule("PAIR.S7-score-of-exit", "in the exit search the best score and the selected entry are updated together under the same conditions, so the reported path score is the score of the entry the hypothesis and segments are traced from", floor=2)
-    fe = fns.get("fsg_search_find_exit")
-    if fe is None:
-        raise AnalysisIncomplete("anchor vanished: fsg_search_find_exit")
-    ctx.touch(fe)
-    bs = [s for s in paths.stores(fe) if s["path"] == "bestscore" and s["rhs"] is not None and not paths.is_const(fe, s["rhs"])]
-    bh = [s for s in paths.stores(fe) if s["path"] == "besthist" and s["rhs"] is not None and not paths.is_const(fe, s["rhs"], -1)]
-    for s in bs:
-        mates = [t for t in bh if paths.same_block(fe, t["node"], s["node"])]
-        ctx.check(s7, len(mates) == 1, key(fe, "score-with-entry"), fe.where(s["node"]), "best score is updated without selecting the entry it belongs to in the same branch: the reported score can come from an entry that is not the one back-traced (segment scores no longer add up to it)")
-    for t in bh:
-        mates = [s for s in bs if paths.same_block(fe, t["node"], s["node"])]
-        tie = paths.guarded(fe, t["node"], lambda fn, cc, pol: paths.rel(fn, cc, pol) in (("bestscore", "==", "hist_entry->score"), ("hist_entry->score", "==", "bestscore")))
-        ctx.check(s7, len(mates) == 1 or tie, key(fe, "entry-with-score:%s" % ("tie" if tie else "better")), fe.where(t["node"]), "an entry is selected without taking its score (and not under score == bestscore)")
-    outs = [s for s in paths.stores(fe) if s["path"] == "*out_score"]
-    ctx.check(s7, len(outs) == 1 and fe.canon(outs[0]["rhs"], subst=False) == "bestscore" and len(bs) >= 1, key(fe, "reported"), fe.where(fe.root), "the score reported is not the best score of the selection loop")
+    score_of_exit_rule(ctx, P)
     from . import c07
     c07.feat_capacity_rule(ctx, P)
 
